@@ -20,23 +20,23 @@ import (
 // scopes: functions whose source is varied for a property in the thorough tier (regular expressions on Type.Method / Func).
 var scopes = map[string][]string{
 	"C01": {`^Failover(Of)?\.`},
-	"C02": {`^Failover(Of)?\.`},
-	"C03": {`^Failover(Of)?\.`},
-	"C04": {`^Failover(Of)?\.`, `^detachedContext\.`},
-	"C05": {`^Failover(Of)?\.`, `^NewFailover(Of)?$`},
-	"C06": {`^Failover(Of)?\.`, `^WithTTL$`, `^TTL$`, `^SkipRead$`, `^detachedContext\.`, `^Trait\.TTL$`, `\.Read$`},
-	"C07": {`^(shardedMap|shardedMapOf|syncMap)\.(Read|Write|Delete|ExpireAll|DeleteAll|Len|Load|Store)$`, `^Trait(Of)?\.PrepareRead$`, `^NoOp\.`, `^errExpired(Of)?\.`, `^(ShardedMap|ShardedMapOf|SyncMap)\.Restore$`},
+	"C02": {`^Failover(Of)?\.`, `^(shardedMap|shardedMapOf|syncMap)\.(Read|Write)$`},
+	"C03": {`^Failover(Of)?\.`, `^NewFailover(Of)?$`, `^WithTTL$`, `^detachedContext\.`, `^Trait(Of)?\.PrepareRead$`, `^(shardedMap|shardedMapOf|syncMap)\.Read$`},
+	"C04": {`^Failover(Of)?\.`, `^detachedContext\.`, `^NewFailover(Of)?$`, `^Trait\.TTL$`, `^(shardedMap|shardedMapOf|syncMap)\.(Read|Write|Delete|Walk)$`},
+	"C05": {`^Failover(Of)?\.`, `^NewFailover(Of)?$`, `^WithTTL$`},
+	"C06": {`^Failover(Of)?\.`, `^NewFailover(Of)?$`, `^WithTTL$`, `^TTL$`, `^SkipRead$`, `^detachedContext\.`, `^Trait\.TTL$`, `\.Read$`},
+	"C07": {`^(shardedMap|shardedMapOf|syncMap)\.(Read|Write|Delete|ExpireAll|DeleteAll|Len|Load|Store|Walk)$`, `^Trait(Of)?\.PrepareRead$`, `^Trait\.(TTL|expireAt)$`, `^WithTTL$`, `^TTL$`, `^SkipRead$`, `^NoOp\.`, `^errExpired(Of)?\.`, `^(ShardedMap|ShardedMapOf|SyncMap)\.Restore$`},
 	"C08": {`^(shardedMap|shardedMapOf|syncMap|ShardedMap|ShardedMapOf|SyncMap|shardedMapLegacyWalkerOf)\.`},
-	"C09": {`^(shardedMap|shardedMapOf|syncMap)\.(Read|Write|Delete|Load|Store)$`, `^Failover(Of)?\.`, `^InvalidationIndex\.Add`, `^Trait(Of)?\.Notify`},
-	"C10": {`^Trait\.(TTL|expireAt|init)$`, `^NewTrait$`, `^ts$`, `^tsTime$`, `^Trait(Of)?\.PrepareRead$`, `\.(ExpireAt|ExpiredAt)$`, `\.Write$`, `^shardedMapLegacyWalkerOf\.Walk$`},
-	"C11": {`^Trait\.(invokeCleanup|TTL)$`, `\.deleteExpired$`, `^NewTraitOf$`},
-	"C12": {`^Trait\.(invokeCleanup|heapInUseOverflow|sysOverflow|countOverflow)$`, `\.evict`, `^New(ShardedMap|ShardedMapOf|SyncMap)$`, `^Trait(Of)?\.PrepareRead$`},
-	"C13": {`\.(Dump|Restore|Walk)$`, `^ts$`, `^tsTime$`},
+	"C09": {`^(shardedMap|shardedMapOf|syncMap)\.(Read|Write|Delete|Load|Store)$`, `^(ShardedMap|ShardedMapOf|SyncMap)\.Restore$`, `^Failover(Of)?\.`, `^InvalidationIndex\.(Add|invalidateByLabels)`, `^Trait(Of)?\.Notify`},
+	"C10": {`^Trait\.(TTL|expireAt|init)$`, `^NewTrait$`, `^ts$`, `^tsTime$`, `^WithTTL$`, `^TTL$`, `^Trait(Of)?\.PrepareRead$`, `\.(ExpireAt|ExpiredAt)$`, `\.Write$`, `^shardedMapLegacyWalkerOf\.Walk$`},
+	"C11": {`^Trait\.(invokeCleanup|TTL|init|janitor|heapInUseOverflow|sysOverflow|countOverflow)$`, `\.deleteExpired$`, `^NewTraitOf$`, `^New(ShardedMap|ShardedMapOf|SyncMap|Failover|FailoverOf)$`, `^(shardedMap|shardedMapOf|syncMap)\.Len$`},
+	"C12": {`^Trait\.(invokeCleanup|heapInUseOverflow|sysOverflow|countOverflow|init)$`, `\.evict`, `^New(ShardedMap|ShardedMapOf|SyncMap)$`, `^Trait(Of)?\.PrepareRead$`, `^(shardedMap|shardedMapOf|syncMap)\.(Len|ExpireAll)$`},
+	"C13": {`\.(Dump|Restore|Walk|WalkDumpRestorer)$`, `^ts$`, `^tsTime$`, `^GobRegister$`, `^HTTPTransfer\.Import$`, `^(shardedMap|shardedMapOf|syncMap)\.(Write|ExpireAll|DeleteAll)$`},
 	"C14": {`^HTTPTransfer\.`, `^Gob`, `^recursiveTypeHash$`},
-	"C15": {`^InvalidationIndex\.`},
-	"C16": {`^(shardedMap|shardedMapOf|syncMap|ShardedMap|ShardedMapOf|SyncMap)\.`, `^InvalidationIndex\.`, `^Invalidator\.`, `^Failover(Of)?\.Get$`, `^Trait(Of)?\.`},
+	"C15": {`^InvalidationIndex\.`, `^New(ShardedMap|ShardedMapOf|SyncMap|InvalidationIndex)$`, `^(shardedMap|shardedMapOf|syncMap)\.Delete$`},
+	"C16": {`^(shardedMap|shardedMapOf|syncMap|ShardedMap|ShardedMapOf|SyncMap)\.`, `^InvalidationIndex\.`, `^Invalidator\.`, `^Failover(Of)?\.Get$`, `^Trait(Of)?\.`, `^New(ShardedMap|ShardedMapOf|SyncMap)$`},
 	"C17": {`^Invalidator\.`},
-	"C18": {`^Trait(Of)?\.(PrepareRead|Notify\w+|invokeCleanup)$`, `^(shardedMap|shardedMapOf|syncMap)\.(Read|Write|Delete|ExpireAll|DeleteAll)$`, `^Failover(Of)?\.(doBuild|refreshStale|Get)$`},
+	"C18": {`^Trait(Of)?\.(PrepareRead|Notify\w+|invokeCleanup|init)$`, `^NewFailover(Of)?$`, `^(shardedMap|shardedMapOf|syncMap)\.(Read|Write|Delete|ExpireAll|DeleteAll|deleteExpired|evict\w*)$`, `^Failover(Of)?\.(doBuild|refreshStale|Get)$`},
 }
 
 func scopeFunc(prop string) func(string) bool {
